@@ -177,6 +177,11 @@ func (c *Ctx) headerCase() {
 		for i := range rec {
 			rec[i] = safeCells[c.Rng.IntN(len(safeCells))]
 		}
+		if len(rec) == 1 && rec[0] == "" {
+			// encoding/csv writes a record made of one empty field as a blank line, which its reader skips: the file this
+			// scenario means to describe would not be the file on disk
+			rec[0] = "v"
+		}
 		file = append(file, rec)
 	}
 	var buf bytes.Buffer
